@@ -6,6 +6,7 @@ import re, json, html
 from .pure import *
 from pjplan import MermaidGantt, MermaidNetwork, DhtmlxGantt
 
+GLUE_IDS = [1, 11, 111, 2, 12, 21, 112, 211]
 NAME_ALPH = ['a', 'B', ' ', ';', '"', "'", ',', 'é', '\\', '$', '{', '}', ':', '0', '<', '>', '#', '-', '--> ', '&', 'я', '$src', '${x}', '</div>', '}}', '{{', 'id_7, ', '](', ')']
 
 
@@ -13,7 +14,8 @@ def run_case(seed, index, props):
     rng = case_rng(seed, 'render', index)
     tags = set(); viol = []
     bad = lambda c, d='': viol.append((c, d))
-    w = gen_wbs(rng, rng.randint(1, 6), alph=NAME_ALPH, names='all')
+    # a third of the cases use ids whose decimal texts concatenate ambiguously (1|12 = 11|2): an entry or link keyed by glued ids would collapse
+    w = gen_wbs(rng, rng.randint(1, 6), ids=rng.sample(GLUE_IDS, len(GLUE_IDS)) if rng.random() < .35 else None, alph=NAME_ALPH, names='all')
     sections = rng.random() < .4
     for t in w.tasks:
         t.name = rstr(rng, NAME_ALPH) or 'n'
@@ -21,7 +23,7 @@ def run_case(seed, index, props):
         t.estimate = t.estimate if t.estimate is not None else 1
         if sections and rng.random() < .7: t.gantt_section = rng.choice(['A', 'B:x', 'C'])
         if rng.random() < .2: t.gantt_bar_style = {'fill': 'red'}
-        if rng.random() < .1: t.network_bar_style = {'fill': '#f00'}
+        if rng.random() < .2: t.network_bar_style = {'fill': '#f00'}
         if ' --> ' in t.name or '-->' in t.name: tags.add('arrow-in-name')
         if re.search(r'id_-?\d+, ', t.name): tags.add('id-token-in-name')
         if '$' in t.name: tags.add('dollar-in-name')
@@ -61,6 +63,11 @@ def run_case(seed, index, props):
         if ndoc.count(nsrc) != 1: bad('C19 network source is not embedded once in the document')
         edges = nsrc.count(' --> ')
         if edges != deps + nopred: bad('C19 network: number of edges differs from dependencies + start edges', f'{edges} vs {deps}+{nopred}')
+        styled = sum(1 for t in tasks if 'network_bar_style' in t.__dict__)
+        nlines = [l for l in nsrc.split('\n') if l != '']
+        # names are single-line, so every edge and every style statement is a line of its own whatever the names contain
+        if len(nlines) != 1 + deps + nopred + styled: bad('C19 network: number of lines differs from header + edges + style statements', f'{len(nlines)} vs 1+{deps}+{nopred}+{styled}')
+        if sum(1 for l in nlines if l.startswith('style ')) != styled: bad('C19 network: not exactly one style statement per styled task')
         if nw._repr_html_().count(html.escape(ndoc)) != 1: bad('C19 network notebook representation is not the escaped document')
     except Exception as e:
         bad('C19 network raises ' + type(e).__name__, str(e)[:100])
